@@ -42,7 +42,10 @@ C. "UTF-8 versus UTF-16LE/BE delivery of the same characters (offsets map one-to
      sizes = encoding lengths), `offsets_one_to_one` (TreeLevel.lean: the character starts in the two encodings are
      strictly increasing lists of equal length).  `utf16be_trail_witness`: unicode.h before /repo 6297e1d did NOT read
      UTF-16BE surrogate pairs (finding C09-utf16be-surrogate-pair, fixed; both decoder variants are carried and the
-     check picks the one /repo behaves like).
+     check picks the one /repo behaves like).  Round11.lean: `utf8_decode_sound` / `utf8_decode_exact` /
+     `utf8_decode_injective` — the converse of `utf8_decode_encode`: the `U8_NEXT` port returns a code point ONLY for
+     the shortest-form encoding of a scalar value (no overlong forms, no surrogates, nothing above U+10FFFF), so the
+     UTF-8 side of the character correspondence is a bijection between scalars and accepted byte sequences.
    * NOT proved: the lexer port run over a UTF-16 input (the port is instantiated with the UTF-8 decoder; the chunk
      theorems B are stated for UTF-8 only).
    * JUDGED: UTF-16LE/BE whole, chunked, point-addressed; positions compared through the offset map; for erroneous
